@@ -460,6 +460,9 @@ impl<const N: usize> Live<N> {
                                 if ch.segs != segs {
                                     c.fail(format!("[C01] published chain {} = {:?} does not describe the caller's buffers {:?}", h, ch.segs, segs));
                                 }
+                                if ch.indirect && !self.indirect {
+                                    c.fail(format!("[C08] chain {} uses an indirect table although the queue was created without RING_INDIRECT_DESC", h));
+                                }
                                 if ch.indirect != want_table {
                                     c.fail(format!("[C01] chain {} indirect={} but queue indirect={} k={}", h, ch.indirect, self.indirect, k));
                                 }
@@ -576,6 +579,13 @@ impl<const N: usize> Live<N> {
             c.fail(format!("[C04] device cannot write chain {}: {}", ch.head, e));
         }
         self.dev_written.insert(ch.head, data);
+        // the length a device records is its own business: some count the readable part as well, some
+        // report nonsense; the driver must hand on exactly what was recorded
+        let len = match rng.below(16) {
+            0 => len + self.dev.read_in(&ch).map(|b| b.len() as u32).unwrap_or(0),
+            1 => rng.u32_biased(),
+            _ => len,
+        };
         let op = format!("queue used id={} len={}", ch.head, len);
         if let Err(e) = self.dev.complete(ch.head, len) {
             c.fail(format!("device: {}", e));
@@ -1241,6 +1251,60 @@ pub fn run(ctx: &Ctx, prop: &str) -> (Vec<Case>, String, bool, BTreeMap<String, 
         }
         cases.extend(mm);
         rule.push_str("; driver level: the block, console, network, socket and event-queue streams of C14/C15/C16/C17/C19 run over the recording platform and their share/unshare ledger failures (unshare with another range / direction / address, twice, never shared) are reported here; transport level: every driver is constructed over the real MMIO transport against a register-level device model and each queue address it latched must lie in live DMA memory (consecutive DMA regions differ in both address halves)");
+    }
+    if prop == "C01" {
+        // driver level: "indirect tables ... used only when enabled for the queue" for every driver's
+        // queues — C08's construction + feature-gated operations, keeping its indirect-descriptor oracles
+        let mut s8 = crate::c08_init::run(ctx).0;
+        s8.retain(|c| !c.id.contains("structured"));
+        for c in s8.iter_mut() {
+            c.oracle_failures.retain(|f| f.to_lowercase().contains("indirect"));
+            for f in c.oracle_failures.iter_mut() {
+                *f = format!("[C01] {}", f);
+            }
+            c.id = format!("C01-via-{}", c.id);
+            c.tag("driver-level");
+        }
+        cases.extend(s8);
+        rule.push_str("; driver level: every driver constructed and its feature-gated operations run (C08's stream): an indirect table only on queues for which RING_INDIRECT_DESC was negotiated");
+    }
+    if prop == "C04" {
+        // addresses handed to the device inside request bodies (GPU: RESOURCE_ATTACH_BACKING entries for the
+        // framebuffer and the cursor) must be DMA addresses as well
+        let mut g = crate::c20_cmd::gpu_cases(ctx, "C04", ctx.tier.pick(200, 4000));
+        for c in g.iter_mut() {
+            c.oracle_failures.retain(|f| f.contains("is not live DMA memory"));
+            for f in c.oracle_failures.iter_mut() {
+                *f = format!("[C04] {}", f);
+            }
+            c.id = format!("C04-via-{}", c.id);
+            c.tag("driver-level");
+        }
+        cases.extend(g);
+    }
+    if prop == "C02" || prop == "C04" {
+        // transport level (2): arbitrary 64-bit queue addresses through the real MMIO transport — every
+        // 64-bit address must reach the device as its own low and high word (C10's session stream)
+        let mut s10 = crate::c10_mmio::run(ctx).0;
+        for c in s10.iter_mut() {
+            c.oracle_failures.retain(|f| f.contains("do not recombine"));
+            for f in c.oracle_failures.iter_mut() {
+                *f = format!("[{}] {}", prop, f);
+            }
+            c.id = format!("{}-via-{}", prop, c.id);
+            c.tag("mmio-level");
+        }
+        cases.extend(s10);
+    }
+    if prop == "C02" {
+        let mut mm = crate::c08_mmio::run_mmio(ctx).0;
+        for c in mm.iter_mut() {
+            c.oracle_failures.retain(|f| f.starts_with("[C02]"));
+            c.id = format!("C02-via-{}", c.id);
+            c.tag("mmio-level");
+        }
+        cases.extend(mm);
+        rule.push_str("; transport level: every driver constructed over the real MMIO transport (each latched queue address must be the DMA address the driver allocated) and arbitrary 64-bit queue addresses through queue_set (low/high words recombine)");
     }
     (cases, rule, false, BTreeMap::new())
 }
